@@ -66,7 +66,7 @@ PROPERTIES = {
                         'dict, change point or marker list; setting objects are immutable)'],
     },
     'C03': {
-        'groups': ['Q1', 'Q2', 'Q3', 'R4', 'P3', 'K1', 'K2'],
+        'groups': ['Q1', 'Q2', 'Q3', 'R4', 'P3', 'K1', 'K2', 'Z2'],
         'level': 'other',
         'explanation': 'The real to_str and the real set_ansi_str are executed symbolically one after the other on bounded-symbolic '
                        'tables.  Q1: AnsiString(str(s)) has the text of s and every character (Skolemised position) has the '
@@ -83,7 +83,7 @@ PROPERTIES = {
                         'quick tier: tables of at most 2 change points for Q2/Q3 plus one chained 3-point shape; thorough: 3 points'],
     },
     'C09': {
-        'groups': ['E2', 'SL', 'G2', 'G2e', 'A1', 'F3', 'M2', 'V5', 'Y3', 'W2', 'X6', 'S2', 'R4', 'N1', 'H1', 'Q2', 'X1', 'G3', 'X3'],
+        'groups': ['E2', 'SL', 'G2', 'G2e', 'A1', 'F3', 'M2', 'V5', 'Y3', 'W2', 'X6', 'S2', 'R4', 'N1', 'H1', 'Q2', 'X1', 'G3', 'X3', 'Z2'],
         'level': 'other',
         'explanation': 'Deductive part (per operation, composed by induction over histories): every contract run treats an exception '
                        'type not listed for the operation as a violation ("no-exception"), checks the exception clause of the listed '
